@@ -104,9 +104,16 @@ def form_name(original_form: ufl.form.Form, form_id: int, prefix: str) -> str:
 
 
 def expression_name(
-    expression: tuple[ufl.core.expr.Expr, npt.NDArray[np.floating]], prefix: str
+    expression: tuple[ufl.core.expr.Expr, npt.NDArray[np.floating]],
+    prefix: str,
+    expression_id: int | None = None,
 ) -> str:
-    """Get expression name."""
+    """Get expression name.
+
+    ``expression_id`` is the position of the expression in the list being compiled; it keeps
+    the names distinct when the same (expression, points) pair is listed more than once.
+    """
     assert isinstance(expression[0], ufl.core.expr.Expr)
-    sig = compute_signature([expression], prefix)
+    tag = prefix if expression_id is None else str((prefix, expression_id))
+    sig = compute_signature([expression], tag)
     return f"expression_{sig}"
